@@ -31,9 +31,12 @@ def liftCfg (c : Config K) (tmD : TimeMap (Dual K)) (smD : SpatialMap (Dual K)) 
     tm := tmD, sm := smD }
 
 /-- `backward` is the derivative of `toTime` (chain-rule factor) -/
-structure TmOK (tmD : TimeMap (Dual K)) (tmR : TimeMap K) : Prop where
-  re : ∀ τ : Dual K, (tmD.toTime τ).re = tmR.toTime τ.re
-  du : ∀ (τ : Dual K) (g : K), g * (tmD.toTime τ).du = tmR.backward τ.re (tmR.toTime τ.re) g * τ.du
+structure TmOK (tdom : K → Prop) (tmD : TimeMap (Dual K)) (tmR : TimeMap K) : Prop where
+  re : ∀ τ : Dual K, tdom τ.re → (tmD.toTime τ).re = tmR.toTime τ.re
+  du : ∀ (τ : Dual K) (g : K), tdom τ.re → g * (tmD.toTime τ).du = tmR.backward τ.re (tmR.toTime τ.re) g * τ.du
+
+/-- no restriction on the duration variables -/
+def everywhere : K → Prop := fun _ => True
 
 /-- `backwardGrad` is the transposed Jacobian of `toPhysical` -/
 structure SmOK (d : Nat) (smD : SpatialMap (Dual K)) (smR : SpatialMap K) : Prop where
@@ -43,8 +46,8 @@ structure SmOK (d : Nat) (smD : SpatialMap (Dual K)) (smR : SpatialMap K) : Prop
       dot g (vdu (smD.toPhysical ξ i)) = dot (smR.backwardGrad (vre ξ) g i) (vdu ξ)
   len : ∀ (ξ : Vec K) (i : Nat) (g : Vec K), ξ.length = smR.udim i → g.length = d → (smR.backwardGrad ξ g i).length = smR.udim i
 
-theorem mapsOK_lift (c : Config K) (tmD : TimeMap (Dual K)) (smD : SpatialMap (Dual K)) (ht : TmOK tmD c.tm)
-    (hs : SmOK c.dim smD c.sm) : MapsOK (liftCfg c tmD smD) c :=
+theorem mapsOK_lift {tdom : K → Prop} (c : Config K) (tmD : TimeMap (Dual K)) (smD : SpatialMap (Dual K))
+    (ht : TmOK tdom tmD c.tm) (hs : SmOK c.dim smD c.sm) : MapsOK tdom (liftCfg c tmD smD) c :=
   { order := rfl, dim := rfl, flags := rfl, n := by simp [Config.n, liftCfg], udim := hs.udim, tmRe := ht.re, tmDu := ht.du,
     smRe := hs.re, smDu := hs.du, smLen := hs.len }
 
@@ -69,14 +72,15 @@ variable [LinearOrder K] [IsStrictOrderedRing K] [FloorRing K]
 /-- **C07, user-facing form**: for a real configuration `c`, a decision vector `x` and a direction `dx` (the dual parts),
 the directional derivative of the returned cost along `dx` — computed by running the same `evaluate` over dual numbers —
 is `⟨grad, dx⟩` for the gradient `evaluate` returns -/
-theorem evaluate_grad_exact_lift (c : Config K) (tmD : TimeMap (Dual K)) (smD : SpatialMap (Dual K))
-    (ht : TmOK tmD c.tm) (hs : SmOK c.dim smD c.sm) (x : List (Dual K)) (costsD : Costs (Dual K)) (costsR : Costs K)
+theorem evaluate_grad_exact_lift {tdom : K → Prop} (c : Config K) (tmD : TimeMap (Dual K)) (smD : SpatialMap (Dual K))
+    (ht : TmOK tdom tmD c.tm) (hs : SmOK c.dim smD c.sm) (x : List (Dual K))
+    (hdom : ∀ i, i < c.n → tdom (x.getD i (lit 0)).re) (costsD : Costs (Dual K)) (costsR : Costs K)
     (hn : 0 < c.n) (hx : x.length = c.layout.total) (hwl : c.refWaypoints.length = c.n + 1)
     (hpos : ∀ h ∈ (decode c (x.map Dual.re)).times, 0 < h)
     (hc : CostsOK c.n c.dim costsD costsR (decode (liftCfg c tmD smD) x)) :
     (evaluate (liftCfg c tmD smD) x costsD).cost.du = dot (evaluate c (x.map Dual.re) costsR).grad (x.map Dual.du) := by
   have hm := mapsOK_lift c tmD smD ht hs
-  apply evaluate_grad_exact (liftCfg c tmD smD) c hm (refsOK_lift c tmD smD) x costsD costsR rfl rfl rfl rfl rfl hn hx
+  apply evaluate_grad_exact (liftCfg c tmD smD) c hm (refsOK_lift c tmD smD) x hdom costsD costsR rfl rfl rfl rfl rfl hn hx
     (by simp [liftCfg, hwl]) hpos
   rw [hm.n]
   exact hc
@@ -85,19 +89,28 @@ end final
 
 /-! ## the time maps -/
 
-theorem tmOK_identity : TmOK (identityTimeMap : TimeMap (Dual K)) (identityTimeMap : TimeMap K) :=
-  ⟨fun _ => rfl, fun _ _ => rfl⟩
+theorem tmOK_identity : TmOK everywhere (identityTimeMap : TimeMap (Dual K)) (identityTimeMap : TimeMap K) :=
+  ⟨fun _ _ => rfl, fun _ _ _ => rfl⟩
 
-theorem tmOK_affine (a b : K) (ha : a ≠ 0) : TmOK (affineTimeMap (lift a) (lift b)) (affineTimeMap a b) := by
+theorem tmOK_affine (a b : K) : TmOK everywhere (affineTimeMap (lift a) (lift b)) (affineTimeMap a b) := by
   constructor
-  · intro τ; simp only [affineTimeMap]; dual_proj; simp
-  · intro τ g; simp only [affineTimeMap]; dual_proj; simp; ring
+  · intro τ _; simp only [affineTimeMap]; dual_proj; simp
+  · intro τ g _; simp only [affineTimeMap]; dual_proj; simp; ring
+
+/-- the harness's reciprocal map `T = b/(1 − aτ)`, whose `backward` uses the decoded duration: away from its pole -/
+theorem tmOK_recip (a b : K) (hb : b ≠ 0) :
+    TmOK (fun τ => 1 - a * τ ≠ 0) (recipTimeMap (lift a) (lift b)) (recipTimeMap a b) := by
+  constructor
+  · intro τ _; simp only [recipTimeMap]; dual_proj; simp
+  · intro τ g h
+    simp only [recipTimeMap]; dual_proj; simp
+    field_simp
 
 section quadinv
 variable [LinearOrder K] [IsStrictOrderedRing K] [FloorRing K]
 
 /-- the default time map `QuadInvTimeMap` (any `sqrt`: `toTau` is not used by `evaluate`) -/
-theorem tmOK_quadInv (sqD : Dual K → Dual K) (sqR : K → K) : TmOK (quadInvTimeMap sqD) (quadInvTimeMap sqR) := by
+theorem tmOK_quadInv (sqD : Dual K → Dual K) (sqR : K → K) : TmOK everywhere (quadInvTimeMap sqD) (quadInvTimeMap sqR) := by
   have hden : ∀ t : K, (1 / 2 * t - 1) * t + 1 ≠ 0 := by
     intro t
     have : (1 / 2 * t - 1) * t + 1 = 1 / 2 * ((t - 1) ^ 2 + 1) := by ring
@@ -105,7 +118,7 @@ theorem tmOK_quadInv (sqD : Dual K → Dual K) (sqR : K → K) : TmOK (quadInvTi
     have : 0 < (t - 1) ^ 2 + 1 := by positivity
     positivity
   constructor
-  · intro τ
+  · intro τ _
     simp only [quadInvTimeMap, QuadInv.toTime, NumOrd.lt, litq]
     by_cases hτ : (0 : K) < τ.re
     · have h1 : decide ((lit 0 : Dual K).re < τ.re) = true := by simpa using hτ
@@ -114,7 +127,7 @@ theorem tmOK_quadInv (sqD : Dual K → Dual K) (sqR : K → K) : TmOK (quadInvTi
     · have h1 : ¬ decide ((lit 0 : Dual K).re < τ.re) = true := by simpa using hτ
       have h2 : ¬ decide ((lit 0 : K) < τ.re) = true := by simpa using hτ
       rw [if_neg h1, if_neg h2]; dual_proj; simp
-  · intro τ g
+  · intro τ g _
     simp only [quadInvTimeMap, QuadInv.toTime, QuadInv.backward, NumOrd.lt, litq]
     by_cases hτ : (0 : K) < τ.re
     · have h1 : decide ((lit 0 : Dual K).re < τ.re) = true := by simpa using hτ
